@@ -154,7 +154,7 @@ static void signature_case(World &W)
 	size_t sigval_off = hashed_len + 2 + unhashed_len; // left 16 bits + MPIs
 	tmcg_openpgp_octets_t wire = sigpkt, wdoc = doc;
 	const Key *VK = &K;
-	bool tampered = false, must_fail = false; std::string what = "none";
+	bool tampered = false, must_fail = false, unauth_added = false; std::string what = "none";
 	// layout of the signature value: left 16 bits, then MPIs (two-octet bit count + payload).  Only the
 	// left-16 octets and the MPI payloads are "the signature value"; a flipped bit in a bit count that
 	// leaves the octet count unchanged does not alter the value.
@@ -188,6 +188,20 @@ static void signature_case(World &W)
 				for (size_t k = 0; k < payload.size(); k++) if (bo >= payload[k].first && bo < payload[k].first + payload[k].second) must_fail = true;
 			}
 			what = "bit flipped at wire offset " + std::to_string(off); W.res.cnt["fault.art_flip_any"]++; break; }
+		case 9: {
+			// a well-formed sub-packet appended to the *unhashed* area: nothing in there is authenticated, so it must
+			// not change what the hashed fields say (creation time, expiration, key expiration, key flags, revocable)
+			static const tmcg_openpgp_byte_t types[] = { 2, 3, 9, 27, 7 };
+			tmcg_openpgp_byte_t ty = types[(size_t)fa % 5]; tmcg_openpgp_octets_t sp;
+			uint32_t v = (fb & 1) ? 0x70000000u : (uint32_t)(now - 5 - (fb & 6));  // far-away life time or "created just now"
+			if (ty == 2) v = (uint32_t)(now - 5);
+			if (ty == 27 || ty == 7) { sp.push_back(2); sp.push_back(ty); sp.push_back((tmcg_openpgp_byte_t)(fb & 0xff)); }
+			else { sp.push_back(5); sp.push_back(ty); sp.push_back((tmcg_openpgp_byte_t)(v >> 24)); sp.push_back((tmcg_openpgp_byte_t)(v >> 16)); sp.push_back((tmcg_openpgp_byte_t)(v >> 8)); sp.push_back((tmcg_openpgp_byte_t)v); }
+			size_t at = hashed_len + 2 + unhashed_len, nl = unhashed_len + sp.size();
+			body.insert(body.begin() + at, sp.begin(), sp.end());
+			body[hashed_len] = (tmcg_openpgp_byte_t)(nl >> 8); body[hashed_len + 1] = (tmcg_openpgp_byte_t)nl;
+			repacket(2, body, wire); tampered = true; unauth_added = true;
+			what = "sub-packet of type " + std::to_string((int)ty) + " appended to the unhashed area"; W.res.cnt["fault.art_unhashed_subpacket"]++; break; }
 	}
 	// ---- verifier node (its own clock)
 	W.set_clock(1, now);
@@ -222,6 +236,12 @@ static void signature_case(World &W)
 	else if (must_fail)
 	{
 		if (good && verified) W.violate("C20", "tampered_signature_verifies", "verification succeeded although " + what + "; " + ctx.str());
+	}
+	else if (unauth_added)
+	{
+		// refusing such a packet is fine; accepting it is only right if the authenticated fields say so
+		if (accepted && !model_time) W.violate("C20", "unhashed_subpacket_overrides_hashed", "signature accepted although the hashed fields make it invalid at the verifier's time; " + ctx.str());
+		W.res.cnt[accepted ? "probe.unhashed_subpacket_accepted" : "probe.unhashed_subpacket_refused"]++;
 	}
 	else W.res.cnt[accepted ? "probe.unhashed_flip_still_accepted" : "probe.unhashed_flip_refused"]++;
 }
@@ -680,7 +700,7 @@ static Plan pgp_generate(uint64_t seed, const Tier &tier)
 		p.cfg["now_off"] = nows[g.below(11)];
 		p.cfg["jump"] = g.chance(1, 8) ? (g.chance(1, 2) ? 86400 * 800 : -86400 * 800) : 0;
 		unsigned f = (unsigned)g.below(16);
-		p.cfg["fault"] = !faults ? 0 : (c12 ? (int64_t)(6 + g.below(3)) : (f < 5 ? 0 : (int64_t)(1 + (f - 5) % 8)));
+		p.cfg["fault"] = !faults ? 0 : (c12 ? (int64_t)(6 + g.below(3)) : (f < 5 ? 0 : (int64_t)(1 + (f - 5) % 9)));
 	}
 	else if (kind == 5)
 	{
